@@ -22,7 +22,7 @@ def _tol(single):
     return 5e-3 if single else 1e-8
 
 
-def check_weights(model, case):
+def check_weights(model, case, check_mask_deficit=True, first=False):
     w = np.asarray(model.weight, dtype=np.float64)
     kind = case.kind
     require(np.all(np.isfinite(w)), 'weight-finite', f'{w.ravel()[:6]}',
@@ -63,8 +63,25 @@ def check_weights(model, case):
         if np.any(zero):
             raise Borderline('frames without any weight (zero saliency)')
         tol = 1e-5 if case.meta.get('single') else 1e-9
-        require(np.max(np.abs(s - 1)) <= K * eps + tol * K, 'weight-sum',
-                f'max |sum-1| {np.max(np.abs(s - 1)):.3e}', kind=kind)
+        expected = 1.0
+        mask = case.opts.get('source_activity_mask')
+        if kind == 'cacgmm' and mask is not None and \
+                case.opts.get('saliency') is None and check_mask_deficit \
+                and not first:
+            # frames in which the mask declares every source inactive carry
+            # an all-zero affiliation column, so the mean affiliation sums to
+            # the fraction of frames with an active source
+            active = mask.any(axis=-2, keepdims=True).astype(np.float64)
+            expected = np.mean(active, axis=tuple(axes), keepdims=True).sum(axis=-2)
+        require(np.max(np.abs(s - expected)) <= K * eps + tol * K, 'weight-sum',
+                f'max |sum-expected| {np.max(np.abs(s - expected)):.3e}',
+                kind=kind)
+        if np.any(np.asarray(expected) < 1 - 1e-12):
+            raise Violation(
+                'weight-sum-below-one',
+                f'class weights sum to {float(np.min(s)):.4f} (= fraction of '
+                f'frames with an active source)', kind=kind,
+                cause='mask-with-all-inactive-frames')
 
 
 def check_cacg(cacg, D, norm, floor, single, kind):
@@ -169,11 +186,11 @@ def check_bingham(b, max_conc, kind):
             'bingham-eigenvectors-unitary', '', kind=kind)
 
 
-def check_model(model, case):
+def check_model(model, case, first=False):
     kind = case.kind
     single = bool(case.meta.get('single'))
     o = case.opts
-    check_weights(model, case)
+    check_weights(model, case, first=first)
     if kind in ('cacgmm', 'gcacgmm', 'vmfcacgmm'):
         check_cacg(model.cacg, case.D, o.get('covariance_norm', 'eigenvalue'),
                    o.get('eigenvalue_floor', 1e-10), single, kind)
@@ -218,9 +235,9 @@ def _one(d, ctx, kinds, **gen_kw):
         if not class_mass_positive(aff, case):
             raise Borderline('class mass vanished during EM')
     # every intermediate model obeys the domain as well
-    for m_i, _ in trace[:-1]:
-        check_model(m_i, case)
-    check_model(model, case)
+    for i, (m_i, _) in enumerate(trace[:-1]):
+        check_model(m_i, case, first=(i == 0))
+    check_model(model, case, first=(case.iterations == 1))
     ctx.nontrivial(
         case.meta['data'] != 'none' or case.N < 2 * case.D
         or case.meta['init'].startswith('onehot')
